@@ -5,8 +5,10 @@ CONSTANTS MaxObj = 1
  MaxAttach = 2
  WriteUnitVoltage = TRUE
  WriteEveryTaggedDistributed = TRUE
- LoadsInKindOrder = TRUE
+ LoadsInKindOrder = FALSE
 INIT Init
 NEXT Next
-INVARIANT Dump
+INVARIANT Accepted
+INVARIANT RoundTrip
+INVARIANT FixPoint
 CHECK_DEADLOCK FALSE
